@@ -1,4 +1,4 @@
-SPECIFICATION Spec
+SPECIFICATION SpecD
 CONSTANTS
   N = 7
   Alphabet <- AlphaSeven
@@ -6,8 +6,9 @@ CONSTANTS
   MaxAccepts = 2
   ForkEpoch <- ForkNever
   PartialWindow = FALSE
+  OverflowGuard = FALSE
   Weaken = "none"
-  KnownGaps = {"partial-sig-outside-slot-window"}
+  KnownGaps = {"partial-sig-outside-slot-window", "slot-time-overflow"}
 PROPERTY Total
 PROPERTY AcceptSound
 INVARIANT StateSound
